@@ -131,6 +131,19 @@ func checkC03(c *Ctx, r *Report) {
 	r.floor("R3.0", 1)
 	r.floor("R3.3", 4)
 	crc := c.fnMust("packet", "CRC16")
+	// R3.5: the checksum, and everything that emits or verifies one, keeps no package-level state
+	{
+		roots := []*ssa.Function{crc}
+		if node := c.callGraph().Nodes[crc]; node != nil {
+			for _, e := range node.In {
+				if c.inModule(e.Caller.Func) {
+					roots = append(roots, e.Caller.Func)
+				}
+			}
+		}
+		sharedStateRule(c, r, "R3.5", "packet.CRC16", "the checksum and its users", roots)
+		r.floor("R3.5", 20)
+	}
 	for _, m := range bytesMethods(c, "packet") {
 		er := runEncoder(c, "packet", m, crc)
 		id := fnID(m)
